@@ -119,8 +119,12 @@ func ParseBalanceText(out string) (*BalanceTable, error) {
 // LineWidths returns the rune width of every line and the rune columns of '|' / '+'.
 func LineShape(line string) (width int, seps []int) {
 	col := 0
+	sepRune := '|'
+	if strings.HasPrefix(line, "+") {
+		sepRune = '+' // rule lines; in data lines '+' may occur in labels such as "Total (A+L)"
+	}
 	for _, r := range line {
-		if r == '|' || r == '+' {
+		if r == sepRune {
 			seps = append(seps, col)
 		}
 		col++
